@@ -11,6 +11,10 @@
 (*  "sr"  temperature series of a ground-state case [sy, nw] on the grid xg = <<tmin, tmax, tstep>>           *)
 (*        xts: reported temperatures * 1000;  xE0: ground state energy used;  muq: mu / u * 10^6 at T = 0     *)
 (*        rows: <<inband, cons, en, ts, fe, api, tsq, fg, eg, der, fd>> per temperature                       *)
+(*        column 12: mu against the closed form of a two-level spectrum (-1: not evaluated)                    *)
+(*  "sc"  phonopy-vasp-efe's table (get_fe_ev_lines, vasprun.xml parsing replaced by a stand-in): xts the T     *)
+(*        column * 1000, rows[i][v] the deviation of the printed entry from                                     *)
+(*        energy(sigma->0)(V) - F_el(T=0, V) + F_el(T, V)  (the script's documented formula), dvol: e-v.dat     *)
 (*  "iv"  a transformed system against its base at one temperature: xt in Transforms(sy), dv = <<mu, en, ts>> *)
 EXTENDS ElectronFE
 
@@ -20,7 +24,8 @@ Lim == 1000
 TNames == {"ConformsExpected", "ConformsGround", "ConformsTransform", "ConformsBandFlag",
            "ImplConservation", "ImplOutsideBand", "ImplEnergy", "ImplMu", "ImplEntropy", "ImplFreeEnergy",
            "ImplOccupation", "ImplOccShape", "ImplGrid", "ImplApi", "ImplEntropyNonneg", "ImplBelowGround",
-           "ImplEnergyAboveGround", "ImplDerivative", "ImplDecreasing", "ImplZeroT", "ImplInvariance"}
+           "ImplEnergyAboveGround", "ImplDerivative", "ImplDecreasing", "ImplZeroT", "ImplInvariance",
+           "ImplScriptRows", "ImplScriptReference", "ImplScriptVolumes"}
 
 (* ---- "pt" ---- *)
 PtJudge(ev, n) ==
@@ -63,6 +68,9 @@ SrJudge(ev, n) ==
        [] n = "ImplOutsideBand" -> \A i \in 1..Len(ev.rows) : (~ev.rows[i][1]) => ev.rows[i][2] <= Lim
        [] n = "ImplEnergy" -> RowsOk(ev, 3)
        [] n = "ImplEntropy" -> RowsOk(ev, 4)
+       (* two distinct levels: mu has a closed form (root of a quadratic); it must have been evaluated for T > 0 *)
+       [] n = "ImplMu" -> Cardinality(Levels(s)) = 2 =>
+                             \A i \in 1..Len(ev.rows) : (ev.rows[i][1] /\ ev.xts[i] > 0) => (ev.rows[i][12] >= 0 /\ ev.rows[i][12] <= Lim)
        [] n = "ImplFreeEnergy" -> \A i \in 1..Len(ev.rows) : ev.rows[i][5] <= Lim
        [] n = "ImplApi" -> \A i \in 1..Len(ev.rows) : ev.rows[i][6] <= Lim
        [] n = "ImplEntropyNonneg" -> \A i \in 1..Len(ev.rows) : ev.rows[i][7] >= 0
@@ -83,7 +91,18 @@ IvJudge(ev, n) ==
     [] n = "ImplInvariance" -> ev.inb => (ev.dv[1] <= Lim /\ ev.dv[2] <= Lim /\ ev.dv[3] <= Lim)
     [] OTHER -> TRUE
 
-Judgement(ev, n) == IF EventKind = "pt" THEN PtJudge(ev, n) ELSE IF EventKind = "sr" THEN SrJudge(ev, n) ELSE IvJudge(ev, n)
+(* ---- "sc" ---- *)
+AllRows(ev) == \A i \in 1..Len(ev.rows) : \A v \in 1..Len(ev.rows[i]) : ev.rows[i][v] <= Lim
+ScJudge(ev, n) ==
+  CASE n = "ImplGrid" -> ev.xts = GridOf(ev.xg) /\ Len(ev.rows) = Len(ev.xts)
+    [] n = "ImplScriptRows" -> ev.xg[1] = 0 => AllRows(ev)
+    (* the reference is the T = 0 free energy also when the table starts at tmin > 0 *)
+    [] n = "ImplScriptReference" -> ev.xg[1] > 0 => AllRows(ev)
+    [] n = "ImplScriptVolumes" -> ev.dvol <= Lim
+    [] OTHER -> TRUE
+
+Judgement(ev, n) == IF EventKind = "pt" THEN PtJudge(ev, n) ELSE IF EventKind = "sr" THEN SrJudge(ev, n)
+                    ELSE IF EventKind = "sc" THEN ScJudge(ev, n) ELSE IvJudge(ev, n)
 
 TInit == /\ pc = "trace" /\ cs \in Events /\ ik = 0 /\ rowN = <<>> /\ rowE = <<>> /\ outN = <<0, 1>> /\ outE = <<0, 1>>
          /\ verdict = {n \in TNames : ~Judgement(cs, n)}
@@ -111,4 +130,7 @@ ImplDerivative == "ImplDerivative" \notin verdict
 ImplDecreasing == "ImplDecreasing" \notin verdict
 ImplZeroT == "ImplZeroT" \notin verdict
 ImplInvariance == "ImplInvariance" \notin verdict
+ImplScriptRows == "ImplScriptRows" \notin verdict
+ImplScriptReference == "ImplScriptReference" \notin verdict
+ImplScriptVolumes == "ImplScriptVolumes" \notin verdict
 =============================================================================
